@@ -66,11 +66,14 @@ def draw_cfg(st):
         cfg["p_switch"] = [0.1, 0.02, 0.3, 0.5][st.choose(4, "p_switch")]
         cfg["gran"] = ["line", "op"][st.choose(2, "gran")]
         cfg["spawn_kinds"] = ["thread", "remote", "preserve"]
-        cfg["w_ops"] = [6, 6, 0, 1, 1, 2, 2]
+        cfg["w_ops"] = [6, 6, 0, 0, 1, 2, 2]
     else:
         cfg["n_actors"] = 1 + st.choose(4, "actors")
         cfg["spawn_kinds"] = ["task"]
-        cfg["w_ops"] = [6, 6, 0, 1, 1, 5, 3]
+        # (no add_success_fields ops: two tasks setting the same success field of an action they share is a race
+        # of the PROGRAM -- last writer wins -- and would make the forests differ between schedules for a
+        # reason that has nothing to do with eliot; seen once in 400 000 thorough runs)
+        cfg["w_ops"] = [6, 6, 0, 0, 1, 5, 3]
         # several tasks inside the same (inherited) action's context()/run() at once
         cfg["w_reenter"] = [0, 3, 6][st.choose(3, "reenter-async")]
         cfg["shared_root"] = st.choose(3, "shared-root") == 2
